@@ -40,7 +40,7 @@ theorem published_round_is_next_blocks_round (s : State) :
 
 /-- a well-formed prevote is accepted exactly when it names the published round and arrives by the end of the prevote window -/
 theorem prevote_accept_iff (s : State) (f v : String) (hash : Str) (r : Nat) (ri : RoundInfo)
-    (hf : (decodeAcc f).isSome) (hv : (decodeVal v).isSome) (hr : s.os.round = some ri) :
+    (hf : (decodeAcc f).isSome) (hv : (decodeVal v).isSome) (hu : validUtf8 hash = true) (hr : s.os.round = some ri) :
     isOk (prevote s f v hash r).out = true ↔ (ri.id = r ∧ (s.h : Int) ≤ ri.prevoteEnd) := by
   unfold prevote
   obtain ⟨a, ha⟩ := Option.isSome_iff_exists.mp hf
@@ -50,11 +50,11 @@ theorem prevote_accept_iff (s : State) (f v : String) (hash : Str) (r : Nat) (ri
 
 /-- with the description published for the current block, that is: current round id and height within the first p blocks of the round -/
 theorem prevote_window (s : State) (f v : String) (hash : Str) (r : Nat)
-    (hf : (decodeAcc f).isSome) (hv : (decodeVal v).isSome) (hp : 0 < s.os.params.votePeriod)
+    (hf : (decodeAcc f).isSome) (hv : (decodeVal v).isSome) (hu : validUtf8 hash = true) (hp : 0 < s.os.params.votePeriod)
     (hr : s.os.round = some { id := roundStart s.h s.os.params.votePeriod, prevoteEnd := prevoteEnd s.h s.os.params.votePeriod,
                               voteEnd := voteEnd s.h s.os.params.votePeriod, sources := src }) :
     isOk (prevote s f v hash r).out = true ↔ (roundStart s.h s.os.params.votePeriod = r ∧ s.h % (s.os.params.votePeriod * 2) < s.os.params.votePeriod) := by
-  rw [prevote_accept_iff s f v hash r _ hf hv hr]
+  rw [prevote_accept_iff s f v hash r _ hf hv hu hr]
   simp only
   rw [prevote_window_iff s.h _ hp]
 
